@@ -224,6 +224,13 @@ class Run(object):
             "trusted_base": self.assumptions,
             "exhaustive": True,
         }
+        inc = getattr(self, "included", [])
+        if inc:
+            own = sum(1 for o in self.obligations if not any(o["rule"].startswith("%s.%s." % (self.prop, i)) for i in inc))
+            cov["included_rule_sets"] = {
+                "properties": inc,
+                "why": "their mechanism is a necessary condition of this property (sa/rules/includes.py); their obligations are filed as %s.<rule>" % self.prop,
+                "own_obligations": own, "included_obligations": total - own}
         if selftest is not None:
             cov["selftest"] = selftest
         ev = {
